@@ -171,7 +171,11 @@ class Scheduler:
         if self.cluster.check_ingest_capacity(pipeline_demand, max_ingest):
             if self.provision_ingest + pipeline_demand <= max_ingest:
                 cluster_capacity = True
-                self.provision_ingest += pipeline_demand
+                if buffer_capacity:
+                    # Only promise the machines when the observation is
+                    # actually admitted; a promise for a refused observation
+                    # is never released by allocate_ingest()
+                    self.provision_ingest += pipeline_demand
                 LOGGER.debug(
                     "Cluster is able to process ingest for observation %s",
                     observation.name)
